@@ -361,6 +361,10 @@ def analyze(job):
 
 
 # --------------------------------------------------------------------------- discriminators
+AUX_CLS = {"TasksContiguous", "ScheduleNTasksInTimeIntervals", "WorkLoad", "ResourceTasksDistance", "ResourceNonDelay", "UnorderedTaskGroup",
+           "OrderedTaskGroup"}
+
+
 def unsound_disc(program, leaf, clause):
     """Details that make a signature specific enough to separate one defect from another."""
     cid, cls, cname = clause[0], clause[1], clause[2]
@@ -393,6 +397,29 @@ def unsound_disc(program, leaf, clause):
         out["has_unscheduled_member"] = any(not view.sched[r["$"]] for r in a["list_of_tasks"])
     if d["cls"] in dsl.TASK_CLS:
         out["optional"] = bool(a.get("optional"))
+    if cls in ("Not", "Or", "And", "Xor", "Implies", "IfThenElse"):
+        # operands whose encoding introduces auxiliary (existential) unknowns: sorted copies, counters, overlaps
+        aux = set()
+
+        def walk(v):
+            if isinstance(v, dict):
+                if "$new" in v:
+                    if v["$new"]["cls"] in AUX_CLS:
+                        aux.add(v["$new"]["cls"])
+                    walk(v["$new"]["args"])
+                elif "$" in v and len(v) == 1:
+                    dd_ = view.dd.get(v["$"])
+                    if dd_ is not None and dd_["cls"] in AUX_CLS:
+                        aux.add(dd_["cls"])
+                else:
+                    for x in v.values():
+                        walk(x)
+            elif isinstance(v, list):
+                for x in v:
+                    walk(x)
+
+        walk(a)
+        out["operand_with_auxiliary_unknowns"] = bool(aux)
     return out
 
 
